@@ -10,14 +10,18 @@ key-and-value recursive map, for which the macro generates none).
 namespace C15
 open Derive
 
-/-- each setter call stores exactly the given value in its field and touches no other field -/
+/-- each setter call touches no other field and stores the given value in its field — except that the setters of
+plain and nested fields compare first (`if self.f == value { return None }`) and leave the field as it is when the old
+value is `==` to the given one under the type's own `PartialEq` (for a type whose `==` is identity that IS the given
+value; for `0.0` / `-0.0` the old bit pattern stays) -/
 theorem setter_stores (fields : Fields) (x : Val) (i : Nat) (v : Val) (ret : Option Entry) (x' : Val)
     (h : setterCall fields x i v = some (ret, x')) :
-    ∃ vs, x = .strct vs ∧ x' = .strct (setAt vs i v) ∧ (∀ j, j ≠ i → valAt (setAt vs i v) j = valAt vs j) ∧
-      (valAt vs i).isSome ∧ valAt (setAt vs i v) i = some v := by
+    ∃ vs old F, x = .strct vs ∧ valAt vs i = some old ∧ fieldAt fields i = some (false, F) ∧
+      x' = .strct (setAt vs i (if F.setterKeeps old v then old else v)) ∧
+      (∀ w j, j ≠ i → valAt (setAt vs i w) j = valAt vs j) := by
   unfold setterCall at h
   split at h
-  · rename_i vs F _
+  · rename_i vs F hF
     cases hold : valAt vs i with
     | none => simp [hold] at h
     | some old =>
@@ -26,8 +30,42 @@ theorem setter_stores (fields : Fields) (x : Val) (i : Nat) (v : Val) (ret : Opt
       | none => simp [hs] at h
       | some r =>
         simp only [hs, Option.some.injEq, Prod.mk.injEq] at h
-        exact ⟨vs, rfl, h.2.symm, fun j hj => valAt_setAt_ne vs i j v hj, by rw [hold]; rfl, valAt_setAt_same vs i v old hold⟩
+        exact ⟨vs, old, F, rfl, hold, hF, h.2.symm, fun w j hj => valAt_setAt_ne vs i j w hj⟩
   · cases h
+
+/-- for the derive's templates: the stored value is the given one, or the old one when that is `==` to it (and then
+nothing is returned) -/
+theorem setter_stored_value (fts : FieldTys) (vs : Vals) (i : Nat) (v : Val) (ret : Option Entry) (x' : Val)
+    (h : setterCall (semFields fts) (.strct vs) i v = some (ret, x')) :
+    ∃ old w, valAt vs i = some old ∧ x' = .strct (setAt vs i w) ∧
+      (w = v ∨ (w = old ∧ veq old v = true ∧ ret = none)) := by
+  obtain ⟨vs', old, F, e1, e2, e3, e4, _⟩ := setter_stores _ _ i v ret x' h
+  simp only [Val.strct.injEq] at e1; subst e1
+  refine ⟨old, _, e2, e4, ?_⟩
+  cases hk : F.setterKeeps old v with
+  | false => exact .inl (by simp)
+  | true =>
+    right
+    rw [← fieldsOf_rel, fieldAt_fieldsOf] at e3
+    cases hf : (relFields fts)[i]? with
+    | none => rw [hf] at e3; cases e3
+    | some e =>
+      rw [hf] at e3
+      simp only [Option.map_some, Option.some.injEq, Prod.mk.injEq] at e3
+      obtain ⟨sk, F', R⟩ := e
+      simp only [] at e3
+      obtain ⟨rfl, rfl⟩ := e3
+      have hok := (setter_ok_fields fts _ (List.mem_of_getElem? hf)).2 old v hk
+      refine ⟨by simp, hok.1, ?_⟩
+      -- the returned entry
+      unfold setterCall at h
+      rw [← fieldsOf_rel, fieldAt_fieldsOf, hf] at h
+      simp only [Option.map_some, e2] at h
+      cases hs : F'.setter old v with
+      | none => simp [hs] at h
+      | some r =>
+        simp only [hs, Option.some.injEq, Prod.mk.injEq] at h
+        rw [← h.1, hok.2 r hs]; rfl
 
 /-- the returned entry IS the entry a full diff has for that field (same position, same payload); it is absent iff
 the field's strategy sees no change -/
@@ -51,7 +89,7 @@ theorem setter_returns_diff_entry (fts : FieldTys) (vs : Vals) (hw : SWT (relFie
       | none => simp [hs] at h
       | some r =>
         simp only [hs, Option.some.injEq, Prod.mk.injEq] at h
-        have hr : r = F.diff old v := setter_ok_fields fts _ (List.mem_of_getElem? hf) old v r hs
+        have hr : r = F.diff old v := (setter_ok_fields fts _ (List.mem_of_getElem? hf)).1 old v r hs
         refine ⟨F, R, old, rfl, ho, by rw [← h.1, hr], fun hv => ?_⟩
         rw [← h.1, hr]
         have := (spec_fields fts _ (List.mem_of_getElem? hf)).none_iff old v hwo hv
@@ -87,10 +125,19 @@ theorem replay (fts : FieldTys) (calls : List (Nat × Val))
     | some rx =>
       obtain ⟨ret, x'⟩ := rx
       obtain ⟨F, R, old, hf, ho, hret, _⟩ := setter_returns_diff_entry fts x hx i v ret x' hcall
-      obtain ⟨vs, e1, e2, _⟩ := setter_stores _ _ i v ret x' hcall
-      simp only [Val.strct.injEq] at e1
-      subst e1
+      obtain ⟨old', w, e1, e2, e3⟩ := setter_stored_value fts x i v ret x' hcall
+      rw [ho] at e1; cases e1
       subst e2
+      rcases e3 with hw | ⟨rfl, _, hnone⟩
+      rotate_left
+      · -- the setter returned before assigning: receiver unchanged, nothing emitted
+        rw [setAt_self x i w ho]
+        obtain ⟨xf, r, a1, a2, a3, a4, a5⟩ := ih hvs x y hx hy he
+        refine ⟨xf, r, a1, a2, ?_, a4, a5⟩
+        simp only [hnone, Option.toList_none, List.nil_append]
+        exact a3
+      have hw' := hw.symm
+      subst hw'
       have hwv : R.wt v := hv (i, v) List.mem_cons_self _ hf
       obtain ⟨_, w1, hwo⟩ := swt_at _ x hx i _ hf
       rw [ho] at w1; cases w1
